@@ -252,6 +252,55 @@ func Hostile(c *spec.Case, r *rand.Rand, n int) []string {
 			}
 			return done
 		}},
+		{"gpu-annotations-garbage-combined", func() bool {
+			// several sharing annotations at once, each possibly garbage: the parsers branch on which ones are present
+			done := false
+			for _, p := range o.Pods {
+				if p.Namespace == "ns" && r.IntN(3) == 0 {
+					val := func(ok string) string {
+						if r.IntN(2) == 0 {
+							return num()
+						}
+						return ok
+					}
+					if r.IntN(2) == 0 {
+						p.Annotations["gpu-fraction"] = val("0.5")
+					}
+					if r.IntN(2) == 0 {
+						p.Annotations["gpu-memory"] = val("1000")
+					}
+					p.Annotations["gpu-fraction-num-devices"] = val([]string{"1", "2", "3"}[r.IntN(3)])
+					done = true
+				}
+			}
+			return done
+		}},
+		{"topology-odd-level-labels", func() bool {
+			// a level whose node label is the name the plugin uses for its own root domain, a level listed twice, an
+			// empty label; nodes carry matching labels
+			lvls := [][]string{{"root", "zone"}, {"zone", "zone"}, {"", "zone"}, {"root"}, {"kubernetes.io/hostname", "root"}}[r.IntN(5)]
+			tp := &kaiv1alpha1.Topology{ObjectMeta: metav1.ObjectMeta{Name: "odd-topo"}}
+			for _, l := range lvls {
+				tp.Spec.Levels = append(tp.Spec.Levels, kaiv1alpha1.TopologyLevel{NodeLabel: l})
+			}
+			o.Topologies = append(o.Topologies, tp)
+			for _, n := range o.Nodes {
+				if n.Name == ControlNode {
+					continue
+				}
+				if n.Labels == nil {
+					n.Labels = map[string]string{}
+				}
+				n.Labels["root"] = []string{"root", "r1", n.Name}[r.IntN(3)]
+			}
+			if len(o.PodGroups) > 0 {
+				pg := o.PodGroups[pick(len(o.PodGroups))]
+				pg.Spec.TopologyConstraint = enginev2alpha2.TopologyConstraint{Topology: "odd-topo", RequiredTopologyLevel: lvls[len(lvls)-1]}
+				pg2 := o.PodGroups[pick(len(o.PodGroups))]
+				pg2.Spec.TopologyConstraint = enginev2alpha2.TopologyConstraint{Topology: "odd-topo", PreferredTopologyLevel: lvls[0]}
+			}
+			return true
+		}},
 		{"running-fraction-pod-without-group-or-with-garbage", func() bool {
 			for _, p := range o.Pods {
 				if p.Spec.NodeName != "" && p.Namespace == "ns" && r.IntN(2) == 0 {
